@@ -248,6 +248,13 @@ func init() {
 		sort.Strings(names)
 		return mkStr(strings.Join(names, "\n"))
 	}
+	// number of timers (time.AfterFunc) that have fired so far on this path
+	h["verifTimersFired"] = func(in *Interp, caller *frame, fn *ssa.Function, args []Value) Value {
+		if in.sched == nil {
+			return intT(0)
+		}
+		return intT(int64(in.sched.timersFired))
+	}
 	h["verifSymbolic"] = func(in *Interp, caller *frame, fn *ssa.Function, args []Value) Value { return TT.True }
 	h["verifIsOpaque"] = func(in *Interp, caller *frame, fn *ssa.Function, args []Value) Value {
 		return BoolT(args[0].(*StrV).opaque != "")
